@@ -17,6 +17,7 @@ CLAIMED["C03"] = ("proof", "Theorems for every NumOps instance (Properties/C03.v
 CLAIMED["C04"] = ("proof", "Theorems (Properties/C04.v): for all 256 thread bytes, the accepted ones cut worker ranges that cover each of the 16 shards exactly once with no more workers than channel slots (finite sweep by vm_compute lifted with forallb_forall); the workers' slices are a permutation of the snapshot for any key distribution; stored records, carried state, share and integer totals are functions of state and time alone; any interleaving of the write lists and any arrival order of statistics give the same table and integer totals; the float distance total is order-independent only under ring laws (known finding on the real code). Correspondence: the same database image updated from identical copies at Threads=0,1,2,4,8,16 with crowded and empty shards, compared with each other and with the model. PARTIAL: freedom from Go data races cannot be exhibited by a Gallina model; the proved footprint argument (workers share only immutable inputs, write distinct keys) is supported by 'go test -race' over the same driver in the thorough tier.", "5 C04", "Coq proof (finite sweep + permutation/partition lemmas) + vm_compute correspondence across six thread settings")
 CLAIMED["C09"] = ("proof", "Theorems for every NumOps instance and EVERY predictor (an arbitrary record of functions; Properties/C09.v): an accepted proposal against a consistent book yields a book with ten slots, ordered by trip start, non-overlapping, every clearance no later than the next trip's start, stack indices within 0..max; all previously made promises keep trip dates and distances, only slot 10 may be dropped and only if its trip has ended; chains of brought-forward promises (ghost flag) never outgrow the stack index, hence the maximum; lifted to every sequence of proposals by induction. The model (actual bisection, insertion, restack cascade) is compared with the real Promises.propose/make on scripted predictors (offset, failing, rate-based, failing backfill, changing versions): result codes and a hash of all ten slots and all fields; Go monitor states the invariant on every accepted proposal.", "5 C09", "Coq proof (restack loop invariant with exception set, chain lemma, induction over proposals) + vm_compute correspondence")
 CLAIMED["C10"] = ("proof", "Theorems (Properties/C10.v): the refusal table of Propose (promises disabled, no flights, start in the past, non-positive distance, overlap with any promised trip - using the C09 invariant -, no room, beyond the horizon), Make applies iff the predictor version equals the version at issue and then installs exactly the proposed promises leaving the rest of the record alone, a failed Make changes nothing, and the version moves exactly when the stored fit moves (both predictors) and never backwards. Purity of proposing is the type of the model function; it is tied to the code by digesting every table and the administrator state before and after every real Propose (monitor) and by the correspondence (C10 projection: all Propose/Make results, proposal hashes, books, administrator state).", "5 C10", "Coq proof (decision lemmas, version lemmas) + vm_compute correspondence + before/after digests of the real store")
+CLAIMED["C17"] = ("proof", "Theorems (Properties/C17.v; every NumOps with '0 > 0 is false'): one update reports exactly the 'departed in the preceding 24 hours' statistics of the re-evaluated window; under the daily discipline (the preceding day's flights lie below oldestChange, which check-ins of the current day are proved to maintain and a successful update re-establishes) it reports exactly the flights that departed in the preceding 24 hours - count and distances oldest first - including midnight and 23:59:59 departures; each flight counts at one and only one day start; totals are sums over travellers each visited once. The traveller-closes-then-flies-again case is exhibited as an observation outside the quantifier. Correspondence under the C17 projection (flights, travellers, distance bits of every update) on strictly daily engine histories; Go monitor tallies accepted flights itself.", "5 C17", "Coq proof (fold statistics lemma, window coverage, discipline invariant) + vm_compute correspondence")
 PENDING = {}
 props = [json.loads(l) for l in open(os.path.join(V, "properties.jsonl"))]
 checks, na = [], []
